@@ -234,7 +234,7 @@ CLAIMS = {
                  "mediaStep_foreign are proved against Generated.masterRejects / mediaRejects, which a mini-translator regenerates from the two parsers' "
                  "UnexpectedTag arms on every run (tables_match pins them to the 13 + 4 kinds of the property). Tie: every sequence of <= 3 (4) representative "
                  "lines behind the header, and all short headerless ones, on both parsers of library and model (status must agree) plus the property's "
-                 "rejection rules evaluated in Python; generated playlists and fixtures crossed to the other parser."),
+                 "rejection rules evaluated in Python; generated playlists and fixtures crossed to the other parser; every media value-tag prefix with 30 values behind the colon (well-formed, other spellings, malformed) in a master playlist and the master tags likewise in a media playlist. String level (Props/C15Text.lean), about the characters of the text: master_rejects_text - in every text the master parser accepts, no line in tag position (every trimmed non-empty line except the one behind #EXT-X-STREAM-INF) starts with one of the ten media value-tag prefixes WHATEVER follows the colon, none is one of the three value-less media tags, none is a bare URI; media_rejects_text - no line of an accepted media playlist text (any builder configuration) starts with a master-tag prefix; media_prefix_kind / master_prefix_kind - a line with such a prefix classifies as that tag or as an error, never as an unknown tag (over the dispatch table regenerated from the source)."),
         "design_ref": "DESIGN.md §7 C15",
         "note": "A builder pre-configured with target_duration can accept a text without EXT-X-TARGETDURATION (API design; TryFrom/FromStr are what the property is about).",
     },
